@@ -3,6 +3,7 @@
 package kcp
 
 import (
+	"sync"
 	"fmt"
 	"sync/atomic"
 	"time"
@@ -204,10 +205,33 @@ func c18SessionPart(t *testing.T, rec *vrec, caseIdx *int64) {
 		rec.beginCase(sc)
 		synctest.Test(t, func(t *testing.T) {
 			var s0 *Snmp
+			// other goroutines use the sessions' getters all the time, in bursts at
+			// every virtual millisecond — also the ones at which update ticks fire.
+			// That costs no virtual time and must not cost a tick.
+			stopPoll := make(chan struct{})
+			var stopOnce sync.Once
+			defer stopOnce.Do(func() { close(stopPoll) })
 			res := runSessScenario(t, rec, &sc, rng, &sessHooks{post: func(w *sessWorld, client, server *UDPSession) {
+				for g := 0; g < 3; g++ {
+					go func() {
+						for {
+							for i := 0; i < 60; i++ {
+								client.GetRTO()
+								server.GetSRTT()
+								server.GetRTO()
+								client.GetSRTTVar()
+							}
+							select {
+							case <-stopPoll:
+								return
+							case <-time.After(time.Millisecond):
+							}
+						}
+					}()
+				}
 				time.Sleep(300 * time.Millisecond)
 				s0 = DefaultSnmp.Copy()
-			}})
+			}, end: func(w *sessWorld, client, server *UDPSession) { stopOnce.Do(func() { close(stopPoll) }) }})
 			if s0 == nil {
 				return
 			}
